@@ -242,6 +242,15 @@ func C16(seed int64, n int) (*cq.Set, *cq.Interner) {
 		}
 		add(fmt.Sprintf("size:%d", size-limit), rs, b, true, "application/json", "review")
 	}
+	// forward compatibility: a review from a newer API server carries fields this build does not know,
+	// in the request and in the embedded object; it is still a well-formed v1 review
+	for i := 0; i < 6; i++ {
+		rs2 := randReview(r, 200000+i)
+		b := rs2.body(true, "admission.k8s.io/v1", "AdmissionReview", 0)
+		b = bytes.Replace(b, []byte(`"request":{`), []byte(`"request":{"futureRequestField":{"a":1},`), 1)
+		b = bytes.Replace(b, []byte(`"spec":{`), []byte(`"spec":{"futureSpecField":"x",`), 1)
+		add("forward-compatible", rs2, b, true, "application/json", "review")
+	}
 	// bodies of unknown length (chunked): a complete review followed by whitespace up to and beyond the limit
 	for _, size := range []int{limit - 1, limit, limit + 1, limit + 1024} {
 		b := append(append([]byte{}, good...), bytes.Repeat([]byte(" "), size-len(good))...)
